@@ -172,6 +172,16 @@ MUST_REJECT = {
     "nan as an input size of a benchmark": "executors: {E: {executable: x}}\nbenchmark_suites: {S: {gauge_adapter: Time, command: c, benchmarks: [{B: {input_sizes: [.NaN]}}]}}\nexperiments: {X: {executions: [E], suites: [S]}}\n",
 }
 RAW_DOCS = {
+    # values the schema lets through although they cannot be used where they stand
+    "perf argument without a value": "executors: {E: {executable: x, profiler: {perf: {record_args: }}}}\nbenchmark_suites: {S: {gauge_adapter: Time, command: c, benchmarks: [B]}}\nexperiments: {X: {executions: [E], suites: [S]}}\n",
+    "number as executor name in a profiling experiment": "executors: {1: {executable: x}}\nbenchmark_suites: {S: {gauge_adapter: Time, command: c, benchmarks: [B]}}\nexperiments: {X: {action: profile, executions: [{1: {cores: [1]}}], suites: [S]}}\n",
+    "huge integer as a float setting": "runs: {parallel_interference_factor: 10000000000000000000000000000000000000000000000000000000000000000000000000000000000000000000000000000000000000000000000000000000000000000000000000000000000000000000000000000000000000000000000000000000000000000000000000000000000000000000000000000000000000000000000000000000000000000000000000000000000000000000000000000000000000000000000000000000000000000000000000000000000000000000000000000000000000000}\nexecutors: {E: {executable: x}}\nbenchmark_suites: {S: {gauge_adapter: Time, command: c, benchmarks: [B]}}\nexperiments: {X: {executions: [E], suites: [S]}}\n",
+    "data file is a directory": "default_data_file: /\nexecutors: {E: {executable: x}}\nbenchmark_suites: {S: {gauge_adapter: Time, command: c, benchmarks: [B]}}\nexperiments: {X: {executions: [E], suites: [S]}}\n",
+    "anchor meets the schema defaults": "&a {experiments: *a}\n",
+    "set as extra_args": "executors: {E: {executable: x}}\nbenchmark_suites: {S: {gauge_adapter: Time, command: c, benchmarks: [{B: {extra_args: !!set {a, b}}}]}}\nexperiments: {X: {executions: [E], suites: [S]}}\n",
+    "binary as executable": "executors: {E: {executable: !!binary ZWNobw==}}\nbenchmark_suites: {S: {gauge_adapter: Time, command: c, benchmarks: [B]}}\nexperiments: {X: {executions: [E], suites: [S]}}\n",
+    "bad tagged scalars": "executors: {E: {executable: x}}\nbenchmark_suites: {S: {gauge_adapter: Time, command: c, benchmarks: [{B: {extra_args: !!bool abc}}, {C: {extra_args: !!timestamp abc}}]}}\nexperiments: {X: {executions: [E], suites: [S]}}\n",
+    "very deep nesting": "a: " + "[" * 3000 + "]" * 3000 + "\n",
     "empty": "", "null": "null\n", "list root": "- a\n- b\n", "scalar root": "hello\n", "int root": "5\n",
     "bad yaml": "a: [1, 2\n", "bad yaml, flow map": "foo: {bar\n", "bad yaml, closing brace": "a: }\n",
     "bad yaml, braces in the offending text": "a: {x}: {y}\n  b: {0}\n", "bad yaml, percent": "a: %(x)s\n b: [\n",
@@ -322,7 +332,7 @@ def run(chk):
             with open(path, "w") as f:
                 f.write(text)
             argv = ["-E", "-D", path]
-            if i % 41 == 7:
+            if i % 41 == 7 and not label.startswith("valid") and not label.startswith("must-reject"):
                 argv = ["-E", "-D", path + ".{missing}"]          # a file that does not exist
             if label.startswith("valid-shared:") and label.endswith(":all"):
                 argv.append("all")
